@@ -134,6 +134,17 @@ CheckNotifs(e, pre, post, mons, l) ==
                                    "row update reports unmonitored or unchanged columns",
                                    [mon |-> n.mon, table |-> tu[1], uuid |-> tu[2]])
 
+\* boolean form, for linearisation search (TraceSerial): tu is the table-updates
+\* record of one message; m a monitor record [enc, req]
+MsgOK(m, pre, post, tu) ==
+    LET must == MustReport(pre, post, m.req)
+        may == MayReportEmpty(pre, post, m.req)
+        got == MsgRows(tu)
+    IN  /\ must \subseteq got /\ got \subseteq must \cup may
+        /\ \A x \in got \cap must : RowUpdateOK(m.enc, m.req, pre, post, x[1], x[2], tu[x[1]][x[2]])
+\* does the transaction pre -> post concern the monitor at all?
+Concerns(m, pre, post) == MustReport(pre, post, m.req) # {}
+
 \* the reply to a monitor request: the monitored projection of the database
 CheckInitial(e, db, l) ==
     LET req == e.req
